@@ -106,73 +106,176 @@ def _dim_branches(fn, where):
     return res
 
 
-def _translate_branch(stmts, kind, dim, where):
-    """-> (lets: [(name, coqtext)], result: det text | {(i,j): text})"""
-    names = {}
-    lets = []
-    adj = {}
-    result = None
-    src_T = {"mat": False}
+class _Mat:
+    """the input matrix (or its transpose): entries are read as m i j"""
+    def __init__(self, transposed=False):
+        self.transposed = transposed
 
-    def mref(src, i, j):
-        if src not in src_T:
-            raise TranslateError("%s: entry of unknown array %s" % (where, src))
+
+class _Tab:
+    """an array built entry by entry (np.zeros_like(mat) then item assignments, or the result of
+    scaling such an array): (i, j) -> Coq text, missing entries are 0"""
+    def __init__(self, ent=None):
+        self.ent = dict(ent or {})
+
+
+def _translate_branch(stmts, kind, dim, where, module=None):
+    """Symbolic execution of one `dim == k` branch of Det / Inv.
+    -> (lets: [(name, coqtext)], result: det text | {(i,j): text})
+
+    Values are scalars (Coq text over the entries `m i j`), the matrix itself / its transpose
+    (`Transpose(mat)`, `np.swapaxes(mat, -1, -2)`), and entry tables.  Accepted: names bound to
+    any of these, entries read directly as `X[..., i, j]` anywhere in an expression, + - * / and
+    unary minus on scalars, `Det(mat)`, `np.zeros_like(mat, ...)`, item assignment
+    `T[..., i, j] = <scalar>`, `np.einsum('...,...ij->...ij', <scalar>, <table>)`, `1 / mat` for
+    dim 1, and calls of module-level helper functions whose body is straight-line assignments
+    followed by one `return` (inlined).  Dead stores are simply overwritten.  Everything else is
+    rejected; the meaning of what is accepted is decided by the theorems, not here."""
+    lets = []
+    used = {}
+
+    def fresh(name):
+        used[name] = used.get(name, 0) + 1
+        return name + "_" if used[name] == 1 else "%s_%d" % (name, used[name])
+
+    def entry_text(M, i, j):
         if not (0 <= i < dim and 0 <= j < dim):
             raise TranslateError("%s: entry index out of range" % where)
-        return "(m %d%%nat %d%%nat)" % ((j, i) if src_T[src] else (i, j))
+        return "(m %d%%nat %d%%nat)" % ((j, i) if M.transposed else (i, j))
 
-    for st in stmts:
-        txt = ast.unparse(st)
-        if isinstance(st, ast.Expr) and isinstance(st.value, ast.Constant):
-            continue
-        if not isinstance(st, ast.Assign) or len(st.targets) != 1:
-            raise TranslateError("%s: unsupported statement `%s`" % (where, txt))
-        tgt, val = st.targets[0], st.value
-        if isinstance(tgt, ast.Name):
-            e = _entry(val)
-            if e is not None:
-                names[tgt.id] = tgt.id + "_"
-                lets.append((tgt.id + "_", mref(*e)))
-                if tgt.id == "det" and kind == "det":
-                    result = tgt.id + "_"
+    def helper(name):
+        if module is None:
+            return None
+        for n in module.body:
+            if isinstance(n, ast.FunctionDef) and n.name == name:
+                return n
+        return None
+
+    def scalar(v, what):
+        if not isinstance(v, str):
+            raise TranslateError("%s: %s is not a scalar expression" % (where, what))
+        return v
+
+    def ev(n, env, depth=0):
+        if isinstance(n, ast.Name):
+            if n.id not in env:
+                raise TranslateError("%s: unbound name %s" % (where, n.id))
+            return env[n.id]
+        if isinstance(n, ast.Constant) and isinstance(n.value, int) and not isinstance(n.value, bool):
+            return "(%d)" % n.value if n.value >= 0 else "(- (%d))" % -n.value
+        if isinstance(n, ast.UnaryOp) and isinstance(n.op, (ast.USub, ast.UAdd)):
+            v = scalar(ev(n.operand, env, depth), ast.unparse(n.operand))
+            return "(- %s)" % v if isinstance(n.op, ast.USub) else v
+        if isinstance(n, ast.BinOp):
+            l, r = ev(n.left, env, depth), ev(n.right, env, depth)
+            if isinstance(n.op, ast.Div) and isinstance(r, _Mat) and not r.transposed and isinstance(l, str) and dim == 1:
+                return _Tab({(0, 0): "(%s / (m 0%%nat 0%%nat))" % l})      # scalar / (1 x 1 matrix)
+            for tcls, sym in ((ast.Add, "+"), (ast.Sub, "-"), (ast.Mult, "*"), (ast.Div, "/")):
+                if isinstance(n.op, tcls):
+                    return "(%s %s %s)" % (scalar(l, ast.unparse(n.left)), sym, scalar(r, ast.unparse(n.right)))
+            raise TranslateError("%s: unsupported operator in %s" % (where, ast.unparse(n)))
+        if isinstance(n, ast.Subscript):
+            base = ev(n.value, env, depth)
+            sl = n.slice
+            if not (isinstance(sl, ast.Tuple) and len(sl.elts) == 3 and isinstance(sl.elts[0], ast.Constant)
+                    and sl.elts[0].value is Ellipsis
+                    and all(isinstance(e, ast.Constant) and isinstance(e.value, int) and not isinstance(e.value, bool) for e in sl.elts[1:])):
+                raise TranslateError("%s: unsupported subscript %s" % (where, ast.unparse(n)))
+            i, jx = sl.elts[1].value, sl.elts[2].value
+            if isinstance(base, _Mat):
+                return entry_text(base, i, jx)
+            if isinstance(base, _Tab):
+                if not (0 <= i < dim and 0 <= jx < dim):
+                    raise TranslateError("%s: entry index out of range" % where)
+                return base.ent.get((i, jx), "0")
+            raise TranslateError("%s: subscript of a scalar: %s" % (where, ast.unparse(n)))
+        if isinstance(n, ast.Call):
+            f = ast.unparse(n.func)
+            args = n.args
+            if f == "Det" and len(args) == 1 and not n.keywords:
+                a = ev(args[0], env, depth)
+                if isinstance(a, _Mat) and not a.transposed and kind == "inv":
+                    return "(det m)"
+                raise TranslateError("%s: Det of something else than mat" % where)
+            if f == "Transpose" and len(args) == 1 and not n.keywords:
+                a = ev(args[0], env, depth)
+                if isinstance(a, _Mat):
+                    return _Mat(not a.transposed)
+                raise TranslateError("%s: Transpose of a non-matrix" % where)
+            if f == "np.swapaxes" and len(args) == 3 and not n.keywords and sorted(ast.unparse(a) for a in args[1:]) == ["-1", "-2"]:
+                a = ev(args[0], env, depth)
+                if isinstance(a, _Mat):
+                    return _Mat(not a.transposed)
+                raise TranslateError("%s: swapaxes of a non-matrix" % where)
+            if f == "np.zeros_like" and len(args) == 1 and isinstance(ev(args[0], env, depth), _Mat) \
+                    and all(k.arg == "dtype" for k in n.keywords):
+                return _Tab()
+            if f == "np.einsum" and len(args) == 3 and not n.keywords and isinstance(args[0], ast.Constant) \
+                    and args[0].value == "...,...ij->...ij":
+                s = scalar(ev(args[1], env, depth), ast.unparse(args[1]))
+                T = ev(args[2], env, depth)
+                if not isinstance(T, _Tab):
+                    raise TranslateError("%s: einsum scaling of something that is not an entry table" % where)
+                return _Tab({(i, jx): "(%s * %s)" % (s, T.ent.get((i, jx), "0")) for i in range(dim) for jx in range(dim)})
+            h = helper(f) if isinstance(n.func, ast.Name) else None
+            if h is not None and not n.keywords:
+                if depth >= 3:
+                    raise TranslateError("%s: helper calls nested too deeply (%s)" % (where, f))
+                a = h.args
+                if a.vararg or a.kwarg or a.kwonlyargs or a.defaults or a.posonlyargs or len(a.args) != len(args):
+                    raise TranslateError("%s: helper %s has an unsupported signature" % (where, f))
+                local = {p.arg: ev(x, env, depth) for p, x in zip(a.args, args)}
+                return run(h.body, local, depth + 1, "%s/%s" % (where, f))
+            raise TranslateError("%s: unsupported call %s" % (where, ast.unparse(n)))
+        raise TranslateError("%s: unsupported expression %s" % (where, ast.unparse(n)))
+
+    def run(body, env, depth, wh):
+        """execute statements; returns the value of `return` (helpers) or None"""
+        for st in body:
+            if isinstance(st, ast.Expr) and isinstance(st.value, ast.Constant):
                 continue
-            if txt in ("inv = np.zeros_like(mat, dtype=float)", "adj = np.zeros_like(mat)"):
+            if isinstance(st, ast.Return) and depth > 0 and st.value is not None:
+                return ev(st.value, env, depth)
+            if not isinstance(st, ast.Assign) or len(st.targets) != 1:
+                raise TranslateError("%s: unsupported statement `%s`" % (wh, ast.unparse(st)))
+            tgt = st.targets[0]
+            if isinstance(tgt, ast.Name):
+                v = ev(st.value, env, depth)
+                if isinstance(v, str) and v != "(det m)":
+                    nm = fresh(tgt.id)          # bind scalars by a let, so the text stays linear
+                    lets.append((nm, v))
+                    v = nm
+                env[tgt.id] = v
                 continue
-            if txt == "det = Det(mat)" and kind == "inv":
-                names["det"] = "(det m)"
+            if isinstance(tgt, ast.Subscript) and isinstance(tgt.value, ast.Name) and isinstance(env.get(tgt.value.id), _Tab):
+                sl = tgt.slice
+                if not (isinstance(sl, ast.Tuple) and len(sl.elts) == 3 and isinstance(sl.elts[0], ast.Constant)
+                        and sl.elts[0].value is Ellipsis
+                        and all(isinstance(e, ast.Constant) and isinstance(e.value, int) for e in sl.elts[1:])):
+                    raise TranslateError("%s: unsupported item assignment `%s`" % (wh, ast.unparse(st)))
+                i, jx = sl.elts[1].value, sl.elts[2].value
+                if not (0 <= i < dim and 0 <= jx < dim):
+                    raise TranslateError("%s: item index out of range" % wh)
+                # a fresh table object: earlier aliases / scaled copies must not change
+                T = _Tab(env[tgt.value.id].ent)
+                T.ent[(i, jx)] = scalar(ev(st.value, env, depth), ast.unparse(st.value))
+                env[tgt.value.id] = T
                 continue
-            if txt == "matT = Transpose(mat)":
-                src_T["matT"] = True
-                continue
-            if kind == "inv" and tgt.id == "inv":
-                if txt == "inv = 1 / mat" and dim == 1:
-                    result = {(0, 0): "(1 / (m 0%nat 0%nat))"}
-                    continue
-                if txt == "inv = np.einsum('...,...ij->...ij', 1 / det, adj)":
-                    if "det" not in names:
-                        raise TranslateError("%s: det used before assignment" % where)
-                    missing = [(i, j) for i in range(dim) for j in range(dim) if (i, j) not in adj]
-                    if missing:
-                        raise TranslateError("%s: adj entries never assigned: %s" % (where, missing))
-                    result = {ij: "((1 / %s) * %s)" % (names["det"], adj[ij]) for ij in adj}
-                    continue
-                raise TranslateError("%s: unsupported `%s`" % (where, txt))
-            # plain arithmetic binding
-            names[tgt.id] = tgt.id + "_"
-            lets.append((tgt.id + "_", expr_coq(val, names, where)))
-            if kind == "det" and tgt.id == "det":
-                result = "det_"
-            continue
-        e = _entry(tgt)
-        if e is not None and e[0] == "adj" and kind == "inv":
-            if not (0 <= e[1] < dim and 0 <= e[2] < dim):
-                raise TranslateError("%s: adj index out of range" % where)
-            adj[(e[1], e[2])] = expr_coq(val, names, where)
-            continue
-        raise TranslateError("%s: unsupported statement `%s`" % (where, txt))
-    if result is None:
-        raise TranslateError("%s: branch dim == %d assigns no result" % (where, dim))
-    return lets, result
+            raise TranslateError("%s: unsupported statement `%s`" % (wh, ast.unparse(st)))
+        if depth > 0:
+            raise TranslateError("%s: helper without return" % wh)
+        return None
+
+    env = {"mat": _Mat(False)}
+    run(stmts, env, 0, where)
+    res = env.get("det" if kind == "det" else "inv")
+    if kind == "det":
+        if not isinstance(res, str):
+            raise TranslateError("%s: branch dim == %d assigns no scalar `det`" % (where, dim))
+        return lets, res
+    if not isinstance(res, _Tab):
+        raise TranslateError("%s: branch dim == %d assigns no entry table `inv`" % (where, dim))
+    return lets, {(i, jx): res.ent.get((i, jx), "0") for i in range(dim) for jx in range(dim)}
 
 
 def _emit_formula(name, ty, scope, lets, body, extra_args=""):
@@ -195,8 +298,8 @@ def translate_det_inv(tree):
         if tail != want:
             raise TranslateError("%s: unexpected epilogue %r" % (nm, tail))
     for k in (1, 2, 3):
-        out[("det", k)] = _translate_branch(bd[k], "det", k, "Det[dim=%d]" % k)
-        out[("inv", k)] = _translate_branch(bi[k], "inv", k, "Inv[dim=%d]" % k)
+        out[("det", k)] = _translate_branch(bd[k], "det", k, "Det[dim=%d]" % k, tree)
+        out[("inv", k)] = _translate_branch(bi[k], "inv", k, "Inv[dim=%d]" % k, tree)
     return out
 
 
